@@ -14,6 +14,7 @@ From Coq Require Import ZArith List Bool Lia.
 From Coq.Strings Require Import Byte String.
 From TS Require Import Bytes State Prog Ops Interp Asm Builders SigSpec TimeSpec TapeLemmas BuilderSpec
   BuilderSpecC15 BuilderSpecC15b TablesCheck.
+From TS Require BuilderSourcesProofs.
 Import ListNotations.
 Local Open Scope nat_scope.
 
@@ -315,6 +316,31 @@ Proof. exact htlc2_shake256_exact. Qed.
 
 Print Assumptions C15_htlc2_sha256_exact.
 Print Assumptions C15_htlc2_shake256_exact.
+(* ---------- the PTLC / HTLC builders as SOURCE (model/BuilderSources.v mirrors the f-string templates of tools.py token for token — 83 Examples
+   against the real .src / .bytes; proofs/BuilderSourcesProofs.v: the template TEXT compiles, for all arguments, to the bytes of
+   model/Builders.v that the theorems above are about; closed statements printed by Check) ---------- *)
+Definition C15_src_ptlc_lock_compiles := @BuilderSourcesProofs.ptlc_lock_compiles.
+Definition C15_src_htlc_sha256_lock_compiles := @BuilderSourcesProofs.htlc_sha256_lock_compiles.
+Definition C15_src_htlc_shake256_lock_compiles := @BuilderSourcesProofs.htlc_shake256_lock_compiles.
+Definition C15_src_htlc2_sha256_lock_compiles := @BuilderSourcesProofs.htlc2_sha256_lock_compiles.
+Definition C15_src_htlc2_shake256_lock_compiles := @BuilderSourcesProofs.htlc2_shake256_lock_compiles.
+Definition C15_src_htlc_witness_compiles := @BuilderSourcesProofs.htlc_witness_compiles.
+Definition C15_src_htlc2_witness_compiles := @BuilderSourcesProofs.htlc2_witness_compiles.
+Definition C15_src_sig_then_compiles := @BuilderSourcesProofs.sig_then_compiles.
+Definition C15_src_ptlc_witness_tweak_compiles := @BuilderSourcesProofs.ptlc_witness_tweak_compiles.
+Check C15_src_ptlc_lock_compiles.
+Check C15_src_htlc_sha256_lock_compiles.
+Check C15_src_htlc_shake256_lock_compiles.
+Print Assumptions C15_src_ptlc_lock_compiles.
+Print Assumptions C15_src_htlc_sha256_lock_compiles.
+Print Assumptions C15_src_htlc_shake256_lock_compiles.
+Print Assumptions C15_src_htlc2_sha256_lock_compiles.
+Print Assumptions C15_src_htlc2_shake256_lock_compiles.
+Print Assumptions C15_src_htlc_witness_compiles.
+Print Assumptions C15_src_htlc2_witness_compiles.
+Print Assumptions C15_src_sig_then_compiles.
+Print Assumptions C15_src_ptlc_witness_tweak_compiles.
+
 Print Assumptions C15_ptlc_lock_bytes.
 Print Assumptions C15_htlc_sha256_lock_bytes.
 Print Assumptions C15_htlc_shake256_lock_bytes.
